@@ -223,6 +223,7 @@ def execLine2 (w : World) (line : String) : World × String :=
     | some (.live g), some step =>
       let img := Cd.save g
       let size := img.length
+      let step := max step (size / 20000)
       let ks := (List.range size).filter (fun k => step ≤ 1 ∨ k % step = 0 ∨ size - k ≤ 64 ∨ k < 64)
       let bad := ks.filterMap (fun k => match Cd.load g.n (img.take k) with
         | .ok _ => some s!"{k}:ok"
